@@ -98,7 +98,7 @@ func openFile(reader io.ReaderAt, writer *os.File, closer io.Closer) (*ComDoc, e
 	if header.ByteOrder != byteOrderMarker {
 		return nil, errors.New("incorrect byte order marker")
 	}
-	if header.SectorSize < 5 || header.SectorSize > 28 || header.ShortSectorSize >= header.SectorSize {
+	if header.SectorSize < 5 || header.SectorSize > 20 || header.ShortSectorSize >= header.SectorSize {
 		return nil, errors.New("unreasonable header values")
 	}
 	r.SectorSize = 1 << header.SectorSize
